@@ -331,7 +331,7 @@ def run_sds(ctx, found=False):
     fmts = [f for f in FM.writable_formats(ctx) if f.major == 0x11 and f.codec in SDS_W]
     if not fmts:
         return False
-    rates = [1, 250, 476, 477, 8000, 11025, 22050, 44100, 48000, 96000, 10 ** 6, 10 ** 9, 10 ** 9 + 1, 2 ** 31 - 1, rng.randrange(477, 200000), rng.randrange(1, 2 ** 31)]
+    rates = [1, 250, 476, 477, 8000, 11025, 22050, 44100, 48000, 96000, 10 ** 6, 3200000, 5000000, 6000000, 9999999, 320000000, 500000001, 600000000, 10 ** 9, 10 ** 9 + 1, 2 ** 31 - 1, rng.randrange(477, 200000), rng.randrange(1, 2 ** 31)]
     jobs = []
     seen_fmt = set()
     for f in fmts:
